@@ -52,6 +52,9 @@ type Eval struct {
 
 	// Mutex to allow concurrent runs
 	mutex sync.Mutex
+
+	// depth of the AST-node being compiled
+	depth int
 }
 
 // New creates a new instance of the evaluator.
